@@ -288,6 +288,11 @@ func c06Real(c *Ctx, r *Rng, prop string) {
 			// directed: the batch API itself asks for credentials — once, twice, or every time, with a credential
 			// helper that keeps handing out what was just rejected
 			tc.BatchScript = Pick(r, [][]string{{"401"}, {"401", "ok"}, {"401", "401", "ok"}, {"ok", "401"}, {"401", "401", "401", "401", "401", "ok"}})
+			if r.Chance(60) { // nothing else happens: the number of batch requests is the model's, exactly
+				for k := range tc.Scripts {
+					tc.Scripts[k] = []string{"ok"}
+				}
+			}
 		}
 		if prop == "C15" && i%16 == 5 {
 			// directed: actions valid when the answer arrives run out while the objects wait for the only worker
@@ -353,6 +358,34 @@ func c06Real(c *Ctx, r *Rng, prop string) {
 		if len(tc.BatchScript) > 0 {
 			c.R.Count("real-adapter.batch-401")
 			// every batch request of the queue (at most one per object and attempt) is sent at most 1 + 3 times
+			// exact, against the model AuthLoop.submissions, when ONE batch request covers every object: the first
+			// submission carries no credentials (the access mode is not known yet), every answer 401 is such an
+			// error as long as the helper answers, an `ok` ends it; an authentication failure is not retried by the queue
+			oneRound := true // no object is sent back for another batch request
+			for _, sc := range tc.Scripts {
+				if len(sc) != 1 || (sc[0] != "ok" && sc[0] != "404" && sc[0] != "403") {
+					oneRound = false
+				}
+			}
+			if oneRound && tc.ExpiresIn == 0 && tc.Batch >= len(tc.Sizes) && !strings.Contains(strings.Join(tc.BatchScript, ","), "ok,401") {
+				bits := ""
+				for _, e := range tc.BatchScript {
+					if e == "401" {
+						bits += "1"
+					} else {
+						bits += "0"
+					}
+				}
+				if ans, err := c.Or.Ask([]string{"C15 authsub " + bits}); err == nil && len(ans) == 1 {
+					var want int
+					fmt.Sscanf(ans[0], "submissions %d", &want)
+					c.R.Count("real-adapter.batch-401.exact")
+					if want != o.Batches {
+						c.R.Add(Finding{Kind: "diff", What: "the number of submissions of a batch request answered with 401: model (AuthLoop.submissions) and implementation disagree", Case: enc,
+							Impl: fmt.Sprintf("%d batch requests", o.Batches), Model: ans[0] + " <= C15 authsub " + bits, Broken: "corr." + prop + ".authloop"})
+					}
+				}
+			}
 			if bound := len(tc.Sizes) * (1 + tc.Retries) * 4; o.Batches > bound {
 				fail("the batch API was asked more often than the attempts of the objects and the bounded re-authentication allow (real basic adapter)", fmt.Sprintf("%d batch requests, bound %d", o.Batches, bound))
 			}
